@@ -27,7 +27,7 @@ def from_fluxes(rng):
     mode = rng.choice(["vac", "temp", "press"])
     Tperm = rng.uniform(200.0, T - 20.0) if mode == "temp" else None
     pperm = rng.uniform(0.05, 8.0) if mode == "press" else None
-    basis = rng.choice(["weight", "weight", "molar"])
+    basis = gen.tstr(rng, rng.choice(["weight", "weight", "molar"]))
     P = (gen.logu(rng, 1e-6, 1.0), gen.logu(rng, 1e-6, 1.0))
     comps, fluxes, Ls = [], [], []
     cand = [pv.Composition(p=rng.uniform(0.02, 0.98), type=basis) for _ in range(rng.randrange(2, 6))]
@@ -87,8 +87,8 @@ def to_si_factor(units, comp):
 def from_permeances(rng):
     mix = gen.some_mixture(rng, p_builtin=0.6)
     T = rng.uniform(273.0, 400.0)
-    units = rng.choice([KG, "SI", "GPU"])
-    basis = rng.choice(["weight", "molar"])
+    units = gen.tstr(rng, rng.choice([KG, "SI", "GPU"]))
+    basis = gen.tstr(rng, rng.choice(["weight", "molar"]))
     comps, perms, pkg, supplied = [], [], [], []
     same_object = rng.random() < 0.25
     for _ in range(rng.randrange(2, 6)):
